@@ -29,7 +29,10 @@ Here are semantic properties that the code base satisfies:
 
 {props}
 
-Your task: produce FOUR different, realistic code changes to the project sources under {wt}/src, each of which KEEPS every one of these properties true - for every input, schedule, crash point and history the properties quantify over - while changing as much as possible of what the properties do NOT fix: internal structure (data structures, helper functions, class layout, names of private attributes, order of independent statements, how state is stored or pickled as long as a restart still restores it), and observable-but-unspecified behaviour (constants such as default timeouts / intervals / buffer and batch sizes, wording of log and progress messages, which of several equally allowed choices is taken, extra fields in answers, extra or fewer temporary files, different temporary-file names, different but equally valid API request batching, the order of independent requests, caching that does not change results, socket I/O done differently with the same bytes on the wire). Be bold: a maintainer's real refactoring or tuning commit, 30-150 changed lines each, touching the code the properties are anchored in ({files}). Each change must be one you can ARGUE is property-preserving; do not introduce bugs. Avoid trivial whitespace/comment-only changes.
+Your task: produce FOUR different, realistic code changes to the project sources under {wt}/src, each of which KEEPS every one of these properties true - for every input, schedule, crash point and history the properties quantify over - while changing as much as possible of what the properties do NOT fix: internal structure (data structures, helper functions, class layout, names of private attributes, order of independent statements, how state is stored or pickled as long as a restart still restores it), and observable-but-unspecified behaviour (constants such as default timeouts / intervals / buffer and batch sizes, wording of log and progress messages, which of several equally allowed choices is taken, extra fields in answers, extra or fewer temporary files, different temporary-file names, different but equally valid API request batching, the order of independent requests, caching that does not change results, socket I/O done differently with the same bytes on the wire). ALREADY DONE in earlier rounds (do something else):
+{done}
+
+Be bold: a maintainer's real refactoring or tuning commit, 30-150 changed lines each, touching the code the properties are anchored in ({files}). Each change must be one you can ARGUE is property-preserving; do not introduce bugs. Avoid trivial whitespace/comment-only changes.
 
 For each change i in (1, 2, 3, 4) deliver, in {out}/change<i>/ :
   - patch.diff : `git -C {wt} diff` for that change alone (apply one change at a time; run `git -C {wt} checkout -- .` between them so that each diff is relative to the pristine tree)
@@ -58,8 +61,16 @@ def main():
             p = props[pid]
             blocks.append(f"---\nTitle: {p['title']}\nStatement: {p['statement']}\nQuantifier: {p['quantifier']['text']}\n---")
             files += [f for f in p["anchors"]["files"] if f not in files]
+        done = []
+        for bid in sorted(os.listdir("/verif/benign")):
+            try:
+                m = json.load(open(f"/verif/benign/{bid}/meta.json"))
+            except OSError:
+                continue
+            if set(m.get("checks", [])) & set(spec["props"]):
+                done.append("- " + m.get("why_property_preserving", bid)[:200])
         open(f"{d}/prompt.txt", "w").write(TMPL.format(wt=f"{d}/wt", out=d, props="\n\n".join(blocks),
-                                                        files=", ".join(files), tests=spec["tests"]))
+                                                        files=", ".join(files), tests=spec["tests"], done="\n".join(done)))
         print("prepared", d)
 
 
